@@ -77,6 +77,8 @@ def build(shape, kinds, marks, counter, parent_is_list=False):
         t.append(c)
     if mark is not None:
         t.insert(0 if ident % 2 else len(t), {'$output': mark})
+        if ident % 5 == 0:
+            t.insert(len(t) // 2, {'$output': mark})        # the same marker twice (lists concatenate when layered)
     return t if ok else None
 
 
@@ -119,6 +121,8 @@ def rand_marked(rng, depth, counter, parent_is_list=False):
         t.append(rand_marked(rng, depth - 1, counter, True))
     if mark is not None:
         t.insert(rng.randint(0, len(t)), {'$output': mark})
+        if rng.random() < 0.2:
+            t.insert(rng.randint(0, len(t)), {'$output': mark})
     return t
 
 
